@@ -548,7 +548,18 @@ def make_search(chk):
                 o = split_out(out)
                 if len(o) < 2 or o[1] != want:
                     return {"key": "C18:model-vs-posix:srand48:%x" % sd, "seed_hex": "%x" % sd, "model": o[:3], "posix_spec": want}
-        if name.startswith("rand32") or name == "sub_one_exact_flt":
+        if name in ("rand48_seq_function_of_seed", "rand32_seq_function_of_seed", "user_stream_independent_of_static",
+                    "static_stream_independent_of_user", "step_streams_independent", "r48Init_limb_duplicated"):
+            # executable form on the REAL objects: same outputs / object bytes for different prior storage contents
+            hb = os.path.join(lib.BUILD, "bin", "rand48_corr")
+            if os.path.exists(hb):
+                _, out = lib.sh([hb, "determinism", str(chk.seed), "200"], timeout=300)
+                for l in out.split("\n"):
+                    kv = kvs(l)
+                    if l.startswith("determinism") and (int(kv.get("bad", 0)) or int(kv.get("default_ctor_bad", 0))):
+                        return {"key": "theorem:" + name, "real_code_class": l.split()[1], "first": kv.get("first"),
+                                "replay_cmd": ".build/bin/rand48_corr determinism %d 200" % chk.seed}
+        if name.startswith("rand32") or name.startswith("run32") or name == "sub_one_exact_flt":
             seeds = SEEDS + [rng.getrandbits(64) for _ in range(3000)]
             ops = ["i", "b", "f", "i", "f", "b"]
             _, out = lib.sh([DRV, "seq"], stdin="".join("R %x %s\n" % (sd, " ".join(ops)) for sd in seeds), timeout=600)
